@@ -17,10 +17,10 @@ type kvp struct {
 }
 
 func validFor(profile uint16, id uint8, v []byte) bool {
-	switch profile {
-	case 0xBEDE:
+	switch {
+	case profile == 0xBEDE:
 		return id >= 1 && id <= 14 && len(v) >= 1 && len(v) <= 16
-	case 0x1000:
+	case isTwoByte(profile):
 		return id >= 1 && len(v) <= 255
 	default:
 		// one id-0 value; the extension length field counts it in 32-bit words and is 16 bits wide
@@ -248,7 +248,7 @@ func runExtOpsOn(h rtp.Header, m []kvp, dups bool, ops []Tok) Outcome {
 	}
 	if merr != nil {
 		o.Impl = L(outs, final, errV(merr), Unit)
-		legacyOdd := enabled && profile != 0xBEDE && profile != 0x1000 && len(m) > 0 && len(m[0].v)%4 != 0
+		legacyOdd := enabled && profile != 0xBEDE && !isTwoByte(profile) && len(m) > 0 && len(m[0].v)%4 != 0
 		if !legacyOdd {
 			fail("Marshal refused a header built from accepted calls: %v", merr)
 		}
@@ -309,7 +309,7 @@ func extStartWire(c *RNG) []byte {
 			}
 		}
 	case 2:
-		profile = 0x1000
+		profile = twoByteProfile(c)
 		for _, id := range ids {
 			if c.Intn(3) == 0 {
 				id = 15 + c.Intn(241)
@@ -377,6 +377,9 @@ func init() {
 				d := starts[c.Intn(4)]
 				if d.profile == 0x1234 {
 					d.profile = legacyProfile(c)
+				}
+				if d.profile == 0x1000 {
+					d.profile = twoByteProfile(c)
 				}
 				d.seq, d.ts, d.pt, d.mk = uint16(c.U64()), uint32(c.U64()), c.Intn(128), c.Bool()
 				k := 1 + c.Intn(12)
